@@ -153,7 +153,18 @@ pub fn run(ctx: &Ctx, st: &mut Stats) {
         let date = d2s(if r.chance(0.3) { hostile_date(&mut r) } else { rand_date(&mut r) });
         let method = r.int(1, 8) as usize;
         for pol in POLICIES.iter().skip(1) {
-            let pl = if is_nearest_lat(pol) { Some(if r.chance(0.2) { 48.5 } else { r.range(-60.0, 60.0) }) } else { None };
+            let pl = if is_nearest_lat(pol) {
+                Some(match r.int(0, 9) {
+                    0 | 1 => 48.5,
+                    // substitute latitude a hair away from the site's own: the replacement is then within a second of
+                    // the conventional value — it must still be flagged, and an unflagged value must still be the conventional one
+                    2 => (site.lat.0 + r.range(-0.02, 0.02)).clamp(-60.0, 60.0),
+                    3 => (site.lat.0 + r.range(-0.002, 0.002)).clamp(-60.0, 60.0),
+                    _ => r.range(-60.0, 60.0),
+                })
+            } else {
+                None
+            };
             let c = Case {
                 site,
                 date: date.clone(),
